@@ -75,7 +75,7 @@ type Storage struct {
 
 func NewStorage() *Storage {
 	return &Storage{SPs: map[string]*serviceprovider.ServiceProvider{}, Requests: map[string]*AuthReq{}, Apps: map[string]string{},
-		Users: map[string]*User{}, Logins: map[string]*User{}, counts: map[string]int{}, IDPrefix: "req"}
+		Users: map[string]*User{}, Logins: map[string]*User{}, counts: map[string]int{}, IDPrefix: "rq+/=:~"} // identifiers with characters that are reserved in URLs: storage ids are opaque
 }
 
 func (s *Storage) ResetLog() {
